@@ -163,7 +163,7 @@ var sizeGen = rapid.SampledFrom([]string{"tiny", "small", "small", "medium", "me
 
 // TestC09Readers: readers racing a sequence of saves only ever see complete snapshots.
 func TestC09Readers(t *testing.T) {
-	col := ev.Get("C09", "readers", "a saver goroutine (in 30% of the cases two concurrent savers) saves a generated sequence of 3-12 snapshots (size classes from 1 job to ~1500 jobs / several MB) with the real JsonDataStore (store file reached directly, through a data.json that is a symbolic link to a file elsewhere, or through a symlinked store directory; in a third of the cases TMPDIR points to another file system) while 2-6 reader goroutines alternate raw os.ReadFile+encoding/json and JsonDataStore.Load; every observation must be 'absent' (only before the first save returned) or decode completely to exactly one snapshot passed to Save (index + content hash), with index >= last save that had returned before the observation began and <= last save started; after the sequence Load returns exactly the last snapshot; non-trivial = an observation that overlapped a save in progress; distinct by (seed,size,observation count)")
+	col := ev.Get("C09", "readers", "a saver goroutine (in 30% of the cases two concurrent savers) saves a generated sequence of 3-12 snapshots (size classes from 1 job to ~1500 jobs / several MB) with the real JsonDataStore (store file reached directly, through a data.json that is a symbolic link to a file elsewhere, or through a symlinked store directory; in a third of the cases TMPDIR points to another file system) while 2-6 reader goroutines alternate raw os.ReadFile+encoding/json and JsonDataStore.Load; every observation must be 'absent' (only before the first save returned) or decode completely to exactly one snapshot passed to Save (index + content hash), with index >= last save that had returned before the observation began and <= last save started; after the sequence Load returns exactly the last snapshot; in half of the cases a snapshot without jobs is saved last, by the same store or by a new one on the same directory, and must replace what was there; non-trivial = an observation that overlapped a save in progress; distinct by (seed,size,observation count)")
 	rapid.Check(t, func(rt *rapid.T) {
 		seed := rapid.Int64Range(1, 1<<40).Draw(rt, "seed")
 		size := sizeGen.Draw(rt, "size")
@@ -277,7 +277,35 @@ func TestC09Readers(t *testing.T) {
 				rt.Fatalf("after the save of snapshot %d returned, the next load returns snapshot %d", count-1, idx)
 			}
 		}
-		col.Add(fmt.Sprintf("%d/%s/%d/%d/%s", seed, size, count, observations, lay), overlapping > 0, map[string]int{"size:" + size: 1, "overlapping-observation": btoi(overlapping > 0), "two-concurrent-savers": btoi(twoSavers), "layout:" + lay: 1}, int(observations),
+		// A snapshot without jobs is a snapshot like any other (retention removed the last job): saved by the same
+		// store or by a new one on the same directory (the program started again), it replaces what was there.
+		emptyLast := rapid.SampledFrom([]string{"no", "no", "same-store", "new-store"}).Draw(rt, "emptySnapshotLast")
+		if emptyLast != "no" {
+			est := st
+			if emptyLast == "new-store" {
+				if est, err = store.NewJSONDataStore(dir); err != nil {
+					rt.Fatalf("NewJSONDataStore: %v", err)
+				}
+			}
+			if err := est.Save(&store.PersistedData{}); err != nil {
+				rt.Fatalf("saving a snapshot without jobs (%s): %v", emptyLast, err)
+			}
+			lst, _ := store.NewJSONDataStore(dir)
+			d, err := lst.Load()
+			if err != nil {
+				rt.Fatalf("Load after a snapshot without jobs was saved (%s): %v", emptyLast, strip(err, dir))
+			}
+			if len(d.Jobs) != 0 {
+				rt.Fatalf("a snapshot without jobs was saved (%s, Save returned nil), the next load returns %d jobs (snapshot %d is still there)", emptyLast, len(d.Jobs), count-1)
+			}
+			if b, err := os.ReadFile(filepath.Join(dir, "data.json")); err == nil {
+				var raw store.PersistedData
+				if len(b) == 0 || json.Unmarshal(b, &raw) != nil || len(raw.Jobs) != 0 {
+					rt.Fatalf("a snapshot without jobs was saved (%s), the store file holds %d bytes that do not decode to it", emptyLast, len(b))
+				}
+			}
+		}
+		col.Add(fmt.Sprintf("%d/%s/%d/%d/%s/%s", seed, size, count, observations, lay, emptyLast), overlapping > 0, map[string]int{"size:" + size: 1, "overlapping-observation": btoi(overlapping > 0), "two-concurrent-savers": btoi(twoSavers), "layout:" + lay: 1, "empty-snapshot-last:" + emptyLast: 1}, int(observations),
 			map[string]interface{}{"seed": seed, "size": size, "layout": lay, "saves": count, "readers": nReaders, "observations": observations, "overlapping_a_save": overlapping})
 	})
 }
